@@ -34,6 +34,7 @@ var Inputs = []Input{
 	{"commented", "SELECT 1 -- c1\n/* c2 */ FROM t"},
 	{"dialect-words", "SELECT zerofill, rownum, qualify, ilike, pragma, `bt` FROM t"}, // tokenizer keyword set
 	{"reject-late", "SELECT a FROM t WHERE a = 1 AND (b = 2 OR c = ) ORDER BY a"},
+	{"literals", "SELECT 'bob', \"Quoted Col\", `bt` FROM \"users\" WHERE city = 'x' AND note = 'it''s'"}, // scratch buffers of string/identifier readers
 }
 
 // TokCfg is the configuration a holder can give a tokenizer.
